@@ -183,7 +183,7 @@ def run(ctx: Ctx) -> None:
 
     I6 = e.interp(stubs={"validator.Validator.convert_lowercase": conv, "validator.Validator.get_error_messages": gem, "ext:json.dumps": dumps, "ext:json.loads": loads, "hook:method": meth}, allow_fork=False)
     dd = HDict({"__type__": "map"})
-    outs = I6.explore("validator.Validator._get_errors", lambda: (V(), [dd, vobj, False], {}))
+    outs = I6.explore("validator.Validator._get_errors", lambda: (V(), [], {"d": dd, "validator": vobj, "add_comments": False}))  # by name: the order of the private parameters is free
     good = outs[0].kind == "return" and rec.get("conv_arg") is dd and rec.get("dumped") is rec.get("lowered") and rec.get("loaded_from") == "<json>" and isinstance(rec.get("validated"), SObj) and rec["validated"].pytype == "jsn" and rec.get("gem_d") is dd and outs[0].value == ["m"]
     ctx.check(good, "W6", "_get_errors dataflow", repo.loc("validator", repo.func("validator.Validator._get_errors")), "", f"_get_errors: lower-cases {rec.get('conv_arg') is dd}, validates the JSON form {rec.get('validated')!r}, messages against the original {rec.get('gem_d') is dd}; outcome {outs[0].kind} {outs[0].exc or ''}")
     ctx.units["pai_paths"] = I.paths_run
